@@ -271,6 +271,31 @@ Fixpoint z_spec_run (w : z_world) (c : z_cache) (hist : list (list nat * z_plan)
   | (objs, plan) :: r => let '(c1, res) := z_spec_request w plan c objs in res :: z_spec_run w c1 r
   end.
 
+(* ---------- the caller's index objects: __init__ keeps `copy.deepcopy(keep)` ---------- *)
+(* An object is constructed from an index expression the CALLER still holds (cell r of the caller's store) and may
+   overwrite at any time between requests.  zd_keep of the descriptor = (value at construction, caller's cell).  What
+   stage 1 sees: the value at construction when __init__ deep-copied it (flag translated from the source), else
+   whatever the caller's cell holds at the time of the access. *)
+Definition z_keep_seen (deep : bool) (st : nat -> K) (kr : K * option nat) : K :=
+  if deep then fst kr else match snd kr with Some r => st r | None => fst kr end.
+
+Inductive z_event := ZMutate (r : nat) (v : K) | ZRequest (objs : list nat) (plan : z_plan).
+
+Fixpoint z_run_events (deep : bool) (code : list z_instr) (w : list (z_par * (K * option nat) * list (V -> V)))
+    (st : nat -> K) (h : z_heap) (evs : list z_event) : list (list (z_out * z_log)) :=
+  match evs with
+  | [] => []
+  | ZMutate r v :: es => z_run_events deep code w (fun u => if Nat.eqb u r then v else st u) h es
+  | ZRequest objs plan :: es =>
+      let w' := map (fun d => match d with (p, kr, tr) => ZD p (z_keep_seen deep st kr) tr end) w in
+      let '(h1, res) := z_request code w' plan h objs in
+      res :: z_run_events deep code w st h1 es
+  end.
+Definition z_requests_of (evs : list z_event) : list (list nat * z_plan) :=
+  flat_map (fun e => match e with ZRequest objs plan => [(objs, plan)] | ZMutate _ _ => [] end) evs.
+Definition z_snapshot (w : list (z_par * (K * option nat) * list (V -> V))) : z_world :=
+  map (fun d => match d with (p, kr, tr) => ZD p (fst kr) tr end) w.
+
 End Lazy.
 
 Arguments ZPBase {V} a. Arguments ZPInd {V} j.
@@ -291,6 +316,11 @@ Arguments z_request {V K} _ _ _ _ _ _.
 Arguments z_run {V K} _ _ _ _ _.
 Arguments z_spec_request {V K} _ _ _ _ _.
 Arguments z_spec_run {V K} _ _ _ _.
+Arguments z_keep_seen {K} _ _ _.
+Arguments ZMutate {K} _ _. Arguments ZRequest {K} _ _.
+Arguments z_run_events {V K} _ _ _ _ _ _ _.
+Arguments z_requests_of {K} _.
+Arguments z_snapshot {V K} _.
 
 (* ------------------------------------------------------------------------------------------- *)
 (* instance: arrays of Model/DaskIdx.v, the linear chain of a d_ind, wire                      *)
